@@ -87,11 +87,11 @@ def to_json(T): return {'starts': sorted(T[0], key=repr), 'finals': sorted(T[1],
 def from_json(d): return mk(d['starts'], d['finals'], [(p, a, q, tuple(o)) for p, a, q, o in d['trans']])
 
 
-def random_fst(rng, names=('q0', 'q1', 'q2')):
+def random_fst(rng, names=('q0', 'q1', 'q2'), out=('x', 'y')):
     n = rng.choice([1, 2, 2, 3]); Q = list(names[:n])
     while True:
         tr = []
         for _ in range(rng.randint(1, 5)):
-            tr.append((rng.choice(Q), rng.choice(['a', 'b', None, None]), rng.choice(Q), tuple(rng.choice(['x', 'y']) for _ in range(rng.choice([0, 0, 1, 1, 2])))))
+            tr.append((rng.choice(Q), rng.choice(['a', 'b', None, None]), rng.choice(Q), tuple(rng.choice(list(out)) for _ in range(rng.choice([0, 0, 1, 1, 2])))))
         T = mk([s for s in Q if rng.random() < 0.5] or [Q[0]], [s for s in Q if rng.random() < 0.5], tr)
         if not writing_epsilon_cycle(T): return T
